@@ -3,6 +3,17 @@
 prompt for an independent seeding sub-agent (property text only; nothing from /verif)."""
 import json, subprocess, sys
 pid, suf = sys.argv[1], sys.argv[2]
+FOCI = {
+ 'restart': "the restart / restore path: what is written to storage, how it is encoded and decoded, and how the node, channels, tracker and monitors are rebuilt from it (vls-persist, Node::new_from_persistence / restore functions, serde models).",
+ 'handler': "the protocol handler layer and wire conversion: vls-protocol-signer/src/handler.rs and helpers, vls-protocol model/message conversion - how request fields are converted, routed and stored before the core is called, and how replies are assembled.",
+ 'compute': "a helper that COMPUTES a value which some check or signature later relies on (fees, weights, depths, sums, indices, derived scripts/keys, summaries), not the check itself.",
+ 'sibling': "a secondary or sibling implementation / entry point: the second of two phases or backends, the less-used validator or persister, the no-std or feature-gated variant, the alternative message version - one sibling drifting from the other.",
+ 'undo': "undo / rollback / disconnect / error-path cleanup / removal code: what happens when something is reverted, refused halfway, removed or forgotten.",
+ 'twosite': "TWO cooperating edits in different functions that each look harmless alone (e.g. a helper's contract subtly changed and a caller relying on the old contract; a field's meaning shifted at the writer but not at the reader).",
+ 'config': "configuration, policy and feature variants: policy construction and filters, network-dependent branches, optional features, defaults, developer/permissive options - a variant under which the guarantee silently no longer holds although it should.",
+ 'boundary': "boundary and degenerate inputs: zero, maximum, empty or duplicate elements, first/last index, equal values, wrap-around, unusual but valid encodings - handled by code away from the main comparison.",
+}
+focus = FOCI.get(sys.argv[3], '') if len(sys.argv) > 3 else ''
 props = {}
 for l in open('/verif/properties.jsonl'):
     l = l.strip()
@@ -11,7 +22,9 @@ for l in open('/verif/properties.jsonl'):
 p = props[pid]
 wt = f"/tmp/wt/{pid}{suf}"
 subprocess.run(f"mkdir -p /tmp/wt && git -C /repo worktree add --detach {wt} HEAD -f", shell=True, stdout=subprocess.DEVNULL, stderr=subprocess.DEVNULL)
-tmpl = open('/verif/tools/refactor_prompt.tmpl' if suf[0] in 'rs' else '/verif/tools/seed_prompt_g.tmpl' if suf[0] in 'gh' else ('/verif/tools/seed_prompt_d.tmpl' if suf[0] in 'def' else '/verif/tools/seed_prompt.tmpl')).read()
+if suf[0] in 'ij':
+    subprocess.run(f"test -d {wt}/target || cp -a /repo/target {wt}/target", shell=True)
+tmpl = open('/verif/tools/seed_prompt_i.tmpl' if suf[0] in 'ij' else '/verif/tools/refactor_prompt.tmpl' if suf[0] in 'rs' else '/verif/tools/seed_prompt_g.tmpl' if suf[0] in 'gh' else ('/verif/tools/seed_prompt_d.tmpl' if suf[0] in 'def' else '/verif/tools/seed_prompt.tmpl')).read()
 anch = ", ".join(p['anchors']['files']) + "; " + "; ".join(f"{m['name']} ({m['where']})" for m in p['anchors'].get('mechanism', []))
 print(tmpl.replace("{WT}", wt).replace("{ID}", pid).replace("{TITLE}", p.get('title', '')).replace("{STATEMENT}", p.get('statement', ''))
-      .replace("{QUANT}", p['quantifier']['text']).replace("{ANCHORS}", anch))
+      .replace("{QUANT}", p['quantifier']['text']).replace("{ANCHORS}", anch).replace("{FOCUS}", focus))
